@@ -1,10 +1,10 @@
 """Shared by C10/C11/C19/C20: the bounded project universe (must mirror spec/darklua/FrontendUniverse.tla)."""
 UNIVERSE = {"sources": ["a", "sub/b", "sub/c"], "modules": ["sub/c", "lib/m"],
             "requires": {"a": ["lib/m"], "sub/b": ["sub/c", "lib/m"], "sub/c": [], "lib/m": []},
-            "dirs": ["sub"], "configs": ["c1", "c2", "c2+skip", "c2+read"]}
+            "dirs": ["sub", "lib"], "configs": ["c1", "c2", "c2+skip", "c2+read"]}
 FILES = ["a", "sub/b", "sub/c", "lib/m"]
 # deviation flags of the OPEN findings (the code as it is today); everything else is FALSE (ideal)
-OPEN_FLAGS = {"DevDepsOnExistingOnly": "1", "DevCreateNoNotify": "1"}
+OPEN_FLAGS = {"DevDepsOnExistingOnly": "1", "DevCreateNoNotify": "1", "DevRmdirNoRestart": "1"}
 BASE_ENV = {"MORECONFIGS": "1"}
 CONFIGS = ("c1", "c2", "c2+skip", "c2+read")
 P = {"ev": "process", "f": "", "d": "", "c": "", "v": 0}
@@ -40,12 +40,13 @@ def random_history(rng, n, configs=CONFIGS):
             del ex[f]
             ev.append({"ev": "rmfile", "f": f, "d": "", "c": "", "v": 0})
         elif k == "rmdir":
-            if not any(f.startswith("sub/") for f in ex):
+            d = rng.choice(["sub", "sub", "lib"])
+            if not any(f.startswith(d + "/") for f in ex):
                 continue
             for f in list(ex):
-                if f.startswith("sub/"):
+                if f.startswith(d + "/"):
                     del ex[f]
-            ev.append({"ev": "rmdir", "d": "sub", "f": "sub", "c": "", "v": 0})
+            ev.append({"ev": "rmdir", "d": d, "f": d, "c": "", "v": 0})
         elif k == "config":
             cfg = rng.choice([c for c in configs if c != cfg])
             ev.append({"ev": "config", "c": cfg, "f": cfg, "d": "", "v": 0})
